@@ -1,6 +1,7 @@
 import Revm.Proofs.EvmStep2Mem
 import Revm.Proofs.EvmStep2Copy
 import Revm.Proofs.EvmStep2Halt
+import Revm.Proofs.EvmStep2Host
 /-! C01, continued — `step_*_agrees` for the instruction families that `Props/C01.lean` leaves open: memory, copy,
 frame-ending, KECCAK256 / LOG, state-touching host instructions and the CALL / CREATE family.
 
@@ -105,5 +106,32 @@ def viewHalt : Done → Option (IResult × List Nat × Nat)
 example : viewHalt (retRule { IState.init [0xf3] [] 100 false 17 0 0 0 {} with
       stack := [2, 31], mem := { buffer := List.replicate 31 0 ++ [5], checkpoints := [], lastCheckpoint := 0 } }) =
     some (.Return, [5, 0], 97) := by decide +kernel
+
+/-! ## (d) KECCAK256 and LOG0 … LOG4: the question asked and the continuation -/
+
+/-- KECCAK256: `30 + 6 · ⌈len / 32⌉` + expansion; the hash function is asked about exactly `μ[off .. off + len)` and its
+answer replaces the two operands; the empty string is not asked about -/
+theorem step_keccak_agrees (s : IState) (hcode : s.code[s.pc]? = some 0x20) (hwf : WFM s) :
+    step s = keccakRule s := Proofs.EvmStep2.step_keccak s hcode hwf
+
+/-- LOG0 … LOG4: static context first; `375 + 8 · len + 375 · n` + expansion; the host receives the executing account's
+address, the `n` topics (first popped first) and `μ[off .. off + len)` -/
+theorem step_log_agrees (s : IState) (n : Fin 5) (hcode : s.code[s.pc]? = some (0xa0 + n.val)) (hwf : WFM s) :
+    step s = logRule n.val s := Proofs.EvmStep2.step_log s n hcode hwf
+
+/-- what an example looks at in a host question: the question and the gas left when it is asked -/
+def viewHost : Outcome → Option HostOp
+  | .host op _ => some op
+  | _ => none
+
+/-- LOG1 of one byte with topic 7 by account 0xcc: the host sees `log 0xcc [7] [5]` -/
+example : viewHost (logRule 1 { IState.init [0xa1] [] 5000 false 17 0xcc 0 0 {} with
+      stack := [7, 1, 31], mem := { buffer := List.replicate 31 0 ++ [5], checkpoints := [], lastCheckpoint := 0 } }) =
+    some (.log 0xcc [7] [5]) := by decide +kernel
+
+/-- … and nothing in a static context -/
+example : logRule 1 { IState.init [0xa1] [] 5000 true 17 0xcc 0 0 {} with stack := [7, 1, 31] } =
+    .halt .StateChangeDuringStaticCall [] (adv { IState.init [0xa1] [] 5000 true 17 0xcc 0 0 {} with stack := [7, 1, 31] }) :=
+  rfl
 
 end Revm.Props.C01Rules
